@@ -101,6 +101,10 @@ impl PayloadWriter {
             // of the last metric, since the previous parts of the buffer are still valid and could be flushed.
             self.buf.truncate(self.last_offset());
 
+            // The truncation also removed the space reserved for this payload's length prefix, so reserve it
+            // again for whatever gets written next.
+            self.prepare_for_write();
+
             return false;
         }
 
